@@ -86,7 +86,7 @@ def run_profile(ctx, prop, profile, nseq, nops, size, kinds=None, seed_off=0, sh
                 k_, p_, d_ = signature(s_)
                 kf = vlib.match_finding(Failure(prop, k_, p_, d_), findings)
                 benign = not s_['panic'] and s_['reply'] and s_['nabs'] == 0 and s_['nwf'] == 0
-                if kf is None and benign and k_ not in kinds:
+                if kf is None and benign and not any(a in kinds for a, _ in vlib.classify_all(s_)):
                     # a relation another property owns failed, but reference and implementation still agree: go on
                     stats.setdefault('foreign_benign', []).append('%s/%s/%s' % (k_, p_, d_[:60]))
                     continue
@@ -106,6 +106,7 @@ def run_profile(ctx, prop, profile, nseq, nops, size, kinds=None, seed_off=0, sh
         stats['cut_short'] += 1
         # minimise
         small = ops
+        final_step = st
         nshrunk = stats.setdefault('nshrunk', 0)
         if shrink and kind != 'panic' and len(ops) > 1 and nshrunk < 3:
             stats['nshrunk'] = nshrunk + 1
@@ -119,6 +120,12 @@ def run_profile(ctx, prop, profile, nseq, nops, size, kinds=None, seed_off=0, sh
             j = vlib.first_failure(ss)
             if j is not None:
                 kind, proc, detail = signature(ss[j])
+                final_step = ss[j]
+        # a step may break several relations at once: the property owns the failure if any of them is its own
+        allk = vlib.classify_all(final_step)
+        own = [(k_, d_) for k_, d_ in allk if k_ in kinds]
+        if own and kind not in kinds:
+            kind, detail = own[0]
         f = Failure(prop, kind, proc, detail, replay=dict(header=hdr, ops=small, failing_step=st['id'], profile=profile))
         f.foreign = kind not in kinds
         fails.append(f)
